@@ -249,15 +249,24 @@ type query struct {
 }
 
 // confirmQueries (thorough tier): every query that was discharged is decided again by a solver of a
-// different family (z3 <-> cvc5) on the same form of the query, 10 s each, 120 s per function.
+// different family (z3 <-> cvc5) on the same form of the query, 10 s each, 120 s per function, 300 s per check.
 // A second `unsat` confirms; a `sat` on the full (non-instantiated) query contradicts the first
 // solver and is reported as an engine fault; anything else leaves the query unconfirmed.
+var (
+	confirmOnce sync.Once
+	confirmEnd  time.Time // the confirmation passes of one check share a budget of 300 s
+)
+
 func confirmQueries(queries []*query) {
 	var wg sync.WaitGroup
 	slots := make(chan struct{}, 12)
 	// the whole confirmation pass of one function gets a wall-clock budget; what is not reached
 	// stays "unconfirmed" (reported, not an alarm)
+	confirmOnce.Do(func() { confirmEnd = time.Now().Add(300 * time.Second) })
 	deadline := time.Now().Add(120 * time.Second)
+	if confirmEnd.Before(deadline) {
+		deadline = confirmEnd
+	}
 	for _, q := range queries {
 		q := q
 		if q.result.verdict != "unsat" || q.result.solver == "simplifier" {
